@@ -220,6 +220,7 @@ type WorkerResult struct {
 	To         int64            `json:"to"`
 	Runs       int64            `json:"runs"`
 	Steps      int64            `json:"steps"`
+	MaxSteps   int64            `json:"max_steps"`
 	Truncated  int64            `json:"truncated"`
 	Stuck      int64            `json:"stuck"`
 	SimNanos   int64            `json:"sim_nanos"`
@@ -327,6 +328,9 @@ func RunWorker(h Harness, o WorkerOpts) (res WorkerResult) {
 		CheckOutcome(out)
 		res.Runs++
 		res.Steps += int64(out.Steps)
+		if int64(out.Steps) > res.MaxSteps {
+			res.MaxSteps = int64(out.Steps)
+		}
 		res.SimNanos += out.SimNanos
 		if out.Truncated {
 			res.Truncated++
